@@ -517,7 +517,7 @@ def gen_aux(tier, rng):
     frag = ['\\citation{a}', '\\citation{A}', '\\citation{a,b,,B}', '\\citation{}', '\\bibstyle{s1}', '\\bibstyle{s2}', '\\bibdata{d1}', '\\bibdata{d1,d2}',
             '\\@input{sub.aux}', '\\@input{nope.aux}', '\\@input{sub2.aux}', ' \\citation{x}', '\\citation{x}}', '\\citation {x}', '\\bibcite{a}{1}', '', '\\citation{a}{b}\\bibstyle{q}',
             '\\citation{c\u00e9}', '\\Citation{x}', '\\citation{x', '\\bibdata{}', '\\bibstyle{}']
-    for i in range(1500 if tier == 'quick' else 20000):
+    for i in range(1500 if tier == 'quick' else 10000):
         top = [rng.choice(frag) for _ in range(rng.randint(0, 7))]
         sub = [rng.choice(frag[:8] + ['\\@input{sub2.aux}']) for _ in range(rng.randint(0, 4))]
         sub2 = [rng.choice(frag[:8]) for _ in range(rng.randint(0, 3))]
@@ -531,7 +531,7 @@ def split_db(rng, db):
     return [db]
 
 def gen_engine(tier, rng):
-    n = 2500 if tier == 'quick' else 30000
+    n = 2500 if tier == 'quick' else 15000
     for i in range(n):
         style = rng.choice(SYN_NAMES + ['dump', 'dump', 'bytitle', 'bytitle'])
         other = rng.choice([s for s in SYN_NAMES if s != style])
@@ -623,7 +623,7 @@ def real_cites(rng, db, star=True):
 
 def gen_real(tier, rng):
     styles = U.STYLES_QUICK if tier == 'quick' else U.STYLES_THOROUGH
-    n = 130 if tier == 'quick' else 900
+    n = 130 if tier == 'quick' else 400
     for style in styles:
         for i in range(n):
             db = real_db(rng)
@@ -671,7 +671,7 @@ def variant(rng, db, cites, kind):
 
 def gen_pairs(tier, rng):
     styles = ['dump', 'bytitle', 'plain', 'unsrt', 'alpha'] + ([] if tier == 'quick' else ['unsrt_mixed', 'IEEEtran', 'apacite', 'jurabib'])
-    n = 110 if tier == 'quick' else 700
+    n = 110 if tier == 'quick' else 300
     for style in styles:
         for i in range(n):
             kind = i % 2
